@@ -464,6 +464,7 @@ class Job:
             shutil.rmtree(sub_path, ignore_errors=True)
         rows = []
         branch_digest = None
+        md_base = num(full.base_revision_id)        # 0 = null:
         for m in combos:
             md = MD.MergeDirective2(
                 revision_id=full.revision_id, testament_sha1=full.testament_sha1, time=full.time, timezone=full.timezone,
@@ -474,7 +475,7 @@ class Job:
             c = {"P": self.P, "submit": submit, "target": target, "md": m, "merge": do_merge}
             o = {"present": {}, "same": [], "verify": "", "patchTamper": [], "bundleTamper": [], "written": [], "before": [],
                  "after": [], "mergeBundle": "", "mergeBranch": ""}
-            info = {}
+            info = {"md_base": md_base}
             rows.append((c, o, info))
             lines = md.to_lines()
             try:
@@ -656,6 +657,10 @@ def signatures(row, law):
         return ["roundtrip:MergeDirective2:lost=%s:fields=%s" % ("+".join(lost) or "presence", combo)]
     if law == "verify":
         return ["%s:MergeDirective2:fields=%s" % (law, combo)]
+    if law == "merge" and len(row["spec"]["lcas"]) > 1 and meta.get("md_base") == 0:
+        # several LCAs without a common ancestor of their own: from_objects records base null:, from_mergeable then
+        # cherry-picks against the empty tree where a branch merge picks one of the LCAs
+        return ["merge:Merger.from_mergeable:criss-cross-null-unique-lca"]
     return ["%s:MergeDirective2+%s:%s" % (law, "bundle" if md["bundle"] else "branch", feats)]
 
 
@@ -776,7 +781,7 @@ def run(ctx):
         for j, h in enumerate(four[z["four"]:z["four"] + z["exotic"]]):
             plans.append((h, j % NPAT, EXOTIC[1 + j % 2], SFMTS[(j // 2) % 2]))
     else:
-        for h in small + four:
+        for h in (small + four)[:z.get("graphs4")]:
             for i in range(z["pats"]):
                 pat = (h["idx"] + 2 * i) % NPAT
                 plans.append((h, pat, None, SFMTS[(i + h["idx"]) % 2]))
